@@ -76,7 +76,13 @@ MANIFEST_TEXT = {
 
 
 def ADV(name):
-    return {"module": "MC_adv", "quick": f"MC_{name}_quick.cfg", "thorough": f"MC_{name}.cfg", "timeout": {"quick": 300, "thorough": 3000}, "scnkey": name}
+    return {"module": "MC_adv", "quick": f"MC_{name}_quick.cfg", "thorough": f"MC_{name}.cfg", "timeout": {"quick": 300, "thorough": 3000}}
+
+
+# key binding: the WIDE configuration (all selections / expectations / KB variants, one adversary step) is used by both tiers;
+# the thorough tier adds the DEEP one (two adversary steps over the smaller sets)
+KB_WIDE = {"module": "MC_adv", "key": "kb_wide", "quick": "MC_kb_quick.cfg", "thorough": "MC_kb_quick.cfg", "timeout": {"quick": 300, "thorough": 600}}
+KB_DEEP = {"module": "MC_adv", "key": "kb_deep", "quick": None, "thorough": "MC_kb.cfg", "timeout": {"quick": 300, "thorough": 3000}}
 
 
 _A = ["TLC + CommunityModules Json", "harness codec (base64url, own JSON reader, SHA-256)", "ledger (EUF-CMA) abstraction of signatures", "wall clock"]
@@ -107,10 +113,10 @@ PLANS.update({
     "C04": P(
         "model_checking",
         ["verify.lenient.kb", "verify.lenient.args", "verify.accept", "present.kb", "present.kb.none", "scn.expect.reject", "scn.expect.claims", "scn.model.agrees"],
-        [ADV("kb")],
-        [{"driver": "replay", "scn": "MC_adv", "args": {"n": 600, "matrix": 0}}, {"driver": "attack", "args": {"n": 12, "family": "kb", "stride": 25}},
+        [KB_WIDE, KB_DEEP],
+        [{"driver": "replay", "scn": "kb_wide", "args": {"n": 600, "matrix": 0}}, {"driver": "attack", "args": {"n": 12, "family": "kb", "stride": 25}},
          {"driver": "rich", "args": {"n": 400, "depth": 3, "arbsel": 0, "kb": 1, "xfmt": 1}}],
-        [{"driver": "replay", "scn": "MC_adv", "args": {"n": 6000, "matrix": 0}}, {"driver": "attack", "args": {"n": 24, "family": "kb", "stride": 1}},
+        [{"driver": "replay", "scn": "kb_wide", "args": {"n": 100000, "matrix": 0}}, {"driver": "replay", "scn": "kb_deep", "args": {"n": 6000, "matrix": 0}}, {"driver": "attack", "args": {"n": 24, "family": "kb", "stride": 1}},
          {"driver": "rich", "args": {"n": 10000, "depth": 6, "arbsel": 0, "kb": 1, "xfmt": 1}}],
         required={"verify.lenient.kb": 300, "verify.lenient.args": 50, "verify.accept": 20, "present.kb": 100},
         rule="cases = behaviours of MC_kb (move / strip / alter / re-sign / forge the KB-JWT, change the disclosure list afterwards, six (aud, nonce) expectations) replayed "
@@ -120,10 +126,10 @@ PLANS.update({
     "C10": P(
         "model_checking",
         ["pair.format", "pair.present", "holder.new"],
-        [ADV("kb")],
-        [{"driver": "replay", "scn": "MC_adv", "args": {"n": 400, "matrix": 0}}, {"driver": "attack", "args": {"n": 12, "family": "all", "stride": 40}},
+        [KB_WIDE, KB_DEEP],
+        [{"driver": "replay", "scn": "kb_wide", "args": {"n": 400, "matrix": 0}}, {"driver": "attack", "args": {"n": 12, "family": "all", "stride": 40}},
          {"driver": "rich", "args": {"n": 300, "depth": 4, "arbsel": 0.2, "xfmt": 1, "rekb": 1}}, {"driver": "history", "args": {"random": 100, "only": "holder"}}],
-        [{"driver": "replay", "scn": "MC_adv", "args": {"n": 6000, "matrix": 0}}, {"driver": "attack", "args": {"n": 60, "family": "all", "stride": 3}},
+        [{"driver": "replay", "scn": "kb_wide", "args": {"n": 100000, "matrix": 0}}, {"driver": "replay", "scn": "kb_deep", "args": {"n": 6000, "matrix": 0}}, {"driver": "attack", "args": {"n": 60, "family": "all", "stride": 3}},
          {"driver": "rich", "args": {"n": 10000, "depth": 7, "arbsel": 0.2, "xfmt": 1, "rekb": 1}}, {"driver": "history", "args": {"random": 3000, "only": "holder"}}],
         required={"pair.format": 1000, "pair.present": 150, "holder.new": 300},
         rule="cases = pairs (Compact, JSON) of the same abstract message: every Verify of the replayed MC_kb behaviours and of the tampering families (honest and tampered), "
